@@ -117,6 +117,39 @@ func doMatchEqual(expression *grammar.MatchExpression, value reflect.Value) (boo
 	return eqFn(matchValue, value), nil
 }
 
+// mapKeyValue derives the match value as a key of the given map key type. The
+// returned boolean is false when the match value is a valid literal of the
+// key's kind but cannot be represented by the key type, so no key can be equal
+// to it.
+func mapKeyValue(expression *grammar.MatchExpression, keyType reflect.Type) (reflect.Value, bool, error) {
+	matchValue, err := getMatchExprValue(expression, keyType.Kind())
+	if err != nil {
+		return reflect.Value{}, false, fmt.Errorf("error getting match value in expression: %w", err)
+	}
+
+	key := reflect.ValueOf(matchValue)
+	if key.Type().AssignableTo(keyType) {
+		return key, true, nil
+	}
+
+	zero := reflect.Zero(keyType)
+	switch matchValue := matchValue.(type) {
+	case int64:
+		if zero.OverflowInt(matchValue) {
+			return reflect.Value{}, false, nil
+		}
+	case uint64:
+		if zero.OverflowUint(matchValue) {
+			return reflect.Value{}, false, nil
+		}
+	case string:
+		if keyType.Kind() != reflect.String {
+			return reflect.Value{}, false, fmt.Errorf("Cannot perform in/contains operations on a map with keys of type %s for selector: %q", keyType, expression.Selector)
+		}
+	}
+	return key.Convert(keyType), true, nil
+}
+
 func doMatchIn(expression *grammar.MatchExpression, value reflect.Value) (bool, error) {
 	matchValue, err := getMatchExprValue(expression, value.Kind())
 	if err != nil {
@@ -125,7 +158,14 @@ func doMatchIn(expression *grammar.MatchExpression, value reflect.Value) (bool, 
 
 	switch kind := value.Kind(); kind {
 	case reflect.Map:
-		found := value.MapIndex(reflect.ValueOf(matchValue))
+		key, ok, err := mapKeyValue(expression, value.Type().Key())
+		if err != nil {
+			return false, err
+		}
+		if !ok {
+			return false, nil
+		}
+		found := value.MapIndex(key)
 		return found.IsValid(), nil
 
 	case reflect.Slice, reflect.Array:
